@@ -400,6 +400,36 @@ static bool do_remat(int x, long i)
   return true;
 }
 
+// Array::remove(const Iterator&)
+static bool do_rematit(int x, long i)
+{
+  if(kindv[x] != ARRAY || i < 0 || i >= size_of(x)) return false;
+  g_win = 1;
+  AS(TA, x)->remove(iter_at(*AS(TA, x), i));
+  g_win = 0;
+  return true;
+}
+
+// removeFront() / removeBack()
+static bool do_rempop(int x, bool front)
+{
+  if(size_of(x) <= 0) return false;
+  g_win = 1;
+  switch(kindv[x]) {
+  case ARRAY: if(front) AS(TA, x)->removeFront(); else AS(TA, x)->removeBack(); break;
+  case LIST: if(front) AS(TL, x)->removeFront(); else AS(TL, x)->removeBack(); break;
+  case MAP: if(front) AS(TM, x)->removeFront(); else AS(TM, x)->removeBack(); break;
+  case MULTIMAP: if(front) AS(TMM, x)->removeFront(); else AS(TMM, x)->removeBack(); break;
+  case HASHMAP: if(front) AS(THM, x)->removeFront(); else AS(THM, x)->removeBack(); break;
+  case HASHSET: if(front) AS(THS, x)->removeFront(); else AS(THS, x)->removeBack(); break;
+  case POOLLIST: if(front) AS(TPL, x)->removeFront(); else AS(TPL, x)->removeBack(); break;
+  case POOLMAP: if(front) AS(TPM, x)->removeFront(); else AS(TPM, x)->removeBack(); break;
+  default: break;
+  }
+  g_win = 0;
+  return true;
+}
+
 static bool do_remkey(int x, const char* s)
 {
   Kind k = kindv[x];
@@ -574,6 +604,20 @@ static void op(long c, long, vh::Tok& t)
         did = true;
       }
     }
+  } else if(!strcmp(o, "apprange") && t.n == 5) {
+    // x.append(&y[i], n): a pointer into y's storage (y may be x)
+    long y = atol(t.v[2]), i = atol(t.v[3]), n = atol(t.v[4]);
+    if(livev(x) && livev(y) && kindv[x] == ARRAY && kindv[y] == ARRAY && i >= 0 && n >= 0 && i + n <= size_of((int)y)) {
+      const V* p = (V*)*AS(TA, y) + i;
+      g_win = 1;
+      AS(TA, x)->append(p, (usize)n);
+      g_win = 0;
+      did = true;
+    }
+  } else if(!strcmp(o, "rematit") && t.n == 3) {
+    if(livev(x)) did = do_rematit((int)x, atol(t.v[2]));
+  } else if(!strcmp(o, "rempop") && t.n == 3) {
+    if(livev(x)) did = do_rempop((int)x, !strcmp(t.v[2], "f"));
   } else {
     printf("%ld ?unknown-op\n", c);
     return;
